@@ -124,7 +124,8 @@ pub fn greatest_lower_bound<'a, T, K: Ord, F: Fn(&'a T) -> K>(
         Err(index) => {
             // If there is no match, then we know for certain that the index is where we should
             // insert a new token, and that the token directly before is the greatest lower bound.
-            return slice.get(index.checked_sub(1)?).map(|res| (index, res));
+            let index = index.checked_sub(1)?;
+            return slice.get(index).map(|res| (index, res));
         }
     };
 
